@@ -284,8 +284,20 @@ fn drive_worker<E: Engine>(eng: &E, ctx: &Ctx, w: usize, cases: u64, stop: &Atom
             return Ok(());
         }
         WATCHDOG_NOW.fetch_add(1, Ordering::Relaxed);
-        let case = eng.gen(&tapes);
-        let out = eng.run(&case);
+        // a panic here is a defect of the harness itself (engines contain panics of the code
+        // under test): infrastructure failure, never a verdict
+        let r = std::panic::catch_unwind(std::panic::AssertUnwindSafe(|| {
+            let case = eng.gen(&tapes);
+            let out = eng.run(&case);
+            (case, out)
+        }));
+        let (case, out) = match r {
+            Ok(x) => x,
+            Err(_) => {
+                eprintln!("harness panic in engine {}: {:?} — infrastructure failure (exit 2)", eng.name(), crate::util::take_panic());
+                std::process::exit(2);
+            }
+        };
         if let Some(sig) = first_fail.borrow().as_ref() {
             // shrinking
             let same = out.violations.iter().any(|v| v.property == property && &v.signature == sig && ctx.known.matches(v).is_none());
